@@ -222,7 +222,7 @@ func (m *C04) Tx(w *world.World, e *world.TxEvent) {
 			if a, ok := e.Pre.PayAddr[p.Owner]; ok {
 				m.clients[a] = true
 			}
-			if id, ok := world.AttrU64(e.Marks, "new-order", "order-id"); ok && len(got) == 1 {
+			if id, ok := world.NewOrderID(e); ok && len(got) == 1 {
 				m.payerOf[id] = got[0].From
 			}
 			w.Case("c04:charge:store:size=%d,replica=%d,sponsored=%v", p.Size_, p.Replica, p.PaymentDid != "")
@@ -536,6 +536,13 @@ func (m *C04) refundRecipients(w *world.World, where string, trs []mon.Transfer,
 				okTo = append(okTo, m.payerOf[orderID], pre.PayAddr[o.Owner])
 			}
 		} else {
+			// no marker: any order that ended in this step
+			for id, o := range pre.Orders {
+				if _, still := post.Orders[id]; !still {
+					okTo = append(okTo, m.payerOf[id], pre.PayAddr[o.Owner])
+					found = true
+				}
+			}
 			// replica reduction: any order whose replica count dropped in this step
 			for id, o := range pre.Orders {
 				if p, ok := post.Orders[id]; ok && p.Replica < o.Replica {
